@@ -516,6 +516,13 @@ class World:
         """Resolve symlinks in the static VFS (component-wise)."""
         if depth > 8:
             raise oserr(errno.ELOOP, path)
+        # NAME_MAX / PATH_MAX: the kernel refuses such a name before looking anything up
+        try:
+            raw = path.encode("utf-8", "surrogateescape")
+        except Exception:  # noqa: BLE001
+            raw = b""
+        if len(raw) > 4095 or any(len(c) > 255 for c in raw.split(b"/")):
+            raise oserr(errno.ENAMETOOLONG, path)
         path = _os.path.normpath(path)
         if path.startswith("//"):
             path = path[1:]
